@@ -1,34 +1,41 @@
 #!/usr/bin/env python3
-"""recheck_mutants.py [id ...]: re-applies every archived seeded change that still applies to /repo's HEAD, re-runs the
-checks that caught it when it was archived, and reports the ones that are no longer caught (regression of the checks'
-detection power).  Writes seeded/RECHECK.json."""
+"""recheck_mutants.py [id ...]: re-applies every archived seeded change that still applies to /repo's HEAD (in a scratch
+worktree of that HEAD; /repo itself is not touched) and re-runs the check that caught it when it was archived, at QUICK size
+without escalation (the weaker setting: an escalated run draws the same cases first and then more).  Reports the ones that
+are no longer caught (a regression of the checks' detection power).  Writes seeded/RECHECK.json.
+Changes of different properties run in parallel; two runs of one check never overlap."""
 import glob, json, os, subprocess, sys
+from concurrent.futures import ThreadPoolExecutor
 VERIF = os.path.dirname(os.path.dirname(os.path.abspath(__file__)))
+def sh(cmd, **kw): return subprocess.run(cmd, shell=True, capture_output=True, text=True, **kw)
 ids = sys.argv[1:] or sorted(os.path.basename(d) for d in glob.glob(os.path.join(VERIF, "seeded", "*")) if os.path.exists(os.path.join(d, "meta.json")))
-assert subprocess.run(["git", "-C", "/repo", "status", "--porcelain"], capture_output=True, text=True).stdout.strip() == "", "/repo not clean"
-out = {}
+HEAD = sh("git -C /repo log -1 --format=%h").stdout.strip()
+jobs = {}
 for sid in ids:
-    d = os.path.join(VERIF, "seeded", sid)
-    meta = json.load(open(os.path.join(d, "meta.json")))
-    a = subprocess.run(["git", "-C", "/repo", "apply", os.path.join(d, "patch.diff")], capture_output=True, text=True)
-    if a.returncode != 0:
-        out[sid] = {"applies": False}
-        print(sid, "patch no longer applies (later fix commits touched the same lines)", flush=True)
-        continue
+    meta = json.load(open(os.path.join(VERIF, "seeded", sid, "meta.json")))
+    own = [q for q in meta.get("caught_by", []) if q == meta.get("property")] or meta.get("caught_by", [])[:1] or [meta.get("property")]
+    jobs.setdefault(own[0], []).append(sid)
+def group(item):
+    pid, sids = item
     res = {}
-    try:
-        own = [q for q in meta.get("caught_by", []) if q == meta.get("property")] or meta.get("caught_by", [])[:1] or [meta.get("property")]
-        for pid in own[:1]:
-            # quick-size sampling (no escalation): the weaker setting; a change caught here is caught with escalation too
-            p = subprocess.run([os.path.join(VERIF, "check"), pid, "--tier", "quick"], cwd=VERIF, capture_output=True, text=True,
-                               env=dict(os.environ, VERIF_NO_ESCALATE="1"))
-            res[pid] = p.returncode
-    finally:
-        subprocess.run(["git", "-C", "/repo", "checkout", "--", "."], check=True)
-    out[sid] = {"applies": True, "exit": res, "still_caught": any(v == 1 for v in res.values())}
-    print(sid, res, "OK" if out[sid]["still_caught"] else "NOT CAUGHT ANY MORE", flush=True)
-subprocess.run(["git", "-C", VERIF, "checkout", "--", "evidence"], check=False)
-json.dump({"repo_head": subprocess.run(["git", "-C", "/repo", "log", "-1", "--format=%h"], capture_output=True, text=True).stdout.strip(), "results": out},
-          open(os.path.join(VERIF, "seeded", "RECHECK.json"), "w"), indent=1)
+    for sid in sids:
+        wt = f"/tmp/recheck_{sid}"
+        sh(f"git -C /repo worktree remove --force {wt}"); sh(f"git -C /repo worktree add --detach {wt}")
+        a = sh(f"git -C {wt} apply {VERIF}/seeded/{sid}/patch.diff")
+        if a.returncode != 0:
+            res[sid] = {"applies": False}
+            print(sid, "patch no longer applies (later fix commits touched the same lines)", flush=True)
+        else:
+            p = sh(f"cd {VERIF} && PRAATIO_REPO={wt} VERIF_NO_ESCALATE=1 ./check {pid} --tier quick")
+            res[sid] = {"applies": True, "exit": {pid: p.returncode}, "still_caught": p.returncode == 1}
+            print(sid, {pid: p.returncode}, "OK" if p.returncode == 1 else "NOT CAUGHT ANY MORE", flush=True)
+        sh(f"git -C /repo worktree remove --force {wt}")
+    return res
+out = {}
+with ThreadPoolExecutor(int(os.environ.get("RECHECK_JOBS", "5"))) as ex:
+    for res in ex.map(group, sorted(jobs.items())):
+        out.update(res)
+sh(f"git -C {VERIF} checkout -- evidence")
+json.dump({"repo_head": HEAD, "results": dict(sorted(out.items()))}, open(os.path.join(VERIF, "seeded", "RECHECK.json"), "w"), indent=1)
 lost = [k for k, v in out.items() if v.get("applies") and not v["still_caught"]]
 print("rechecked", sum(1 for v in out.values() if v.get("applies")), "not applicable", sum(1 for v in out.values() if not v.get("applies")), "lost", lost)
